@@ -48,7 +48,8 @@ CONSTANTS Fams,      \* subset of {"pair", "each", "rand", "long"}
 VARIABLES case, built      \* the case descriptor and the assertion set built from it
 vars == <<case, built>>
 
-A == INSTANCE Assertions WITH LMax <- 8, Cols <- {0}, TestLens <- {8}, SetLen <- 8, SetWidth <- 1
+\* (the instance parameters only size the universes of the C21 generators, which are not used here: kept minimal)
+A == INSTANCE Assertions WITH LMax <- 2, Cols <- {0}, TestLens <- {}, SetLen <- 2, SetWidth <- 1
 
 (***************************************************************************)
 (* assertions with values                                                  *)
